@@ -282,7 +282,8 @@ func (g *c05Rand) pick(xs ...string) string { return xs[g.r.Intn(len(xs))] }
 func (g *c05Rand) p(permille int) bool      { return g.r.Intn(1000) < permille }
 func (g *c05Rand) v() string                { return g.pick("a", "b", "c", "a", "b", "o") }
 
-// safe: values that may be stored INTO an existing container (never an existing container: no cycles)
+// safe: values that may be stored INTO an existing container (never an existing container: no cycles —
+// a cyclic value that gets stringified, e.g. by `return this`, overflows the Go stack: known finding of C06)
 func (g *c05Rand) safe() string {
 	return g.pick("1", "2", "7", "\"s\"", "\"k\"", "null", "true", "[1, 2]", "[]", "{\"k\": 1}", "{1: \"x\"}", "len(a)", "1 + 2", "f", "[[3], 4]")
 }
@@ -435,10 +436,10 @@ func (g *c05Rand) stmt(d int) string {
 		// object template + instance
 		old, oldFn := g.level, g.inFn
 		g.level, g.inFn = 2, true
-		m := "func (" + g.pick("", "a", "b=1") + ") {\n" + g.pick("return this.k", "this.k := a\nreturn this", "return [this.k, this.j]", g.stmts(1)) + "\n}"
+		m := "func (" + g.pick("", "a", "b=1") + ") {\n" + g.pick("return this.k", "this.k := "+g.safe()+"\nreturn this", "return [this.k, this.j]", "this.j := len(a)\nreturn this.j", g.stmts(1)) + "\n}"
 		ini := ""
 		if g.p(500) {
-			ini = ", \"init\": func (" + g.pick("", "a", "a, b=2") + ") {\n" + g.pick("this.k := a", "this.j := [a]", "x.mark(this)", g.stmts(1)) + "\n}"
+			ini = ", \"init\": func (" + g.pick("", "a", "a, b=2") + ") {\n" + g.pick("this.k := "+g.safe(), "this.j := [1, "+g.safe()+"]", "x.mark(this)", g.stmts(1)) + "\n}"
 		}
 		g.level, g.inFn = old, oldFn
 		sup := ""
